@@ -181,6 +181,18 @@ class EngineD:
     # ------------------------------------------------------------- generation
     def _gen_obj(self, g) -> Dict[str, Any]:
         kind = weighted(g, [("tensor", 3), ("sptensor", 3), ("ktensor", 3), ("matrix", 2)])
+        if kind in ("tensor", "matrix") and g.random() < 0.04:
+            # a large dense object (file writers tend to work block-wise): cheap values, many of them
+            if kind == "tensor":
+                shape = g.choice([[21, 21, 21], [1, 9000], [130, 70], [17, 5, 110]])
+            else:
+                shape = g.choice([[90, 91], [1, 8200], [8193, 1], [3, 2741]])
+            n = int(np.prod(shape))
+            base = gen_double(g)
+            data = (np.arange(n, dtype=float) * 0.001953125 + base).reshape(shape, order="F")
+            if not np.all(np.isfinite(data)):
+                data = (np.arange(n, dtype=float) * 0.001953125 + 1.5).reshape(shape, order="F")
+            return {"kind": kind, "shape": shape, "data": enc(data), "order": g.choice(["F", "C"])}
         if kind == "tensor":
             N = g.randint(1, 4)
             shape = [g.choice([1, 1, 2, 3, 4]) for _ in range(N)]
@@ -205,10 +217,13 @@ class EngineD:
             lin = g.sample(range(size), min(nnz, size))
             subs = [list(int(v) for v in np.unravel_index(k, shape, order="F")) for k in lin]
             vals = []
+            stored_zeros = g.random() < 0.15  # e.g. the result of S * 0.0: entries that are stored although zero
             for _ in subs:
                 v = gen_double(g)
-                vals.append(v if v != 0 else 1.5)
-            return {"kind": kind, "shape": shape, "subs": subs, "vals": enc(np.array(vals, dtype=float).reshape(-1, 1))}
+                if stored_zeros and g.random() < 0.5:
+                    v = g.choice([0.0, -0.0])
+                vals.append(v if (v != 0 or stored_zeros) else 1.5)
+            return {"kind": kind, "shape": shape, "subs": subs, "vals": enc(np.array(vals, dtype=float).reshape(-1, 1)), "stored_zeros": stored_zeros}
         if kind == "ktensor":
             N = g.randint(1, 4)
             shape = [g.choice([1, 2, 3, 4]) for _ in range(N)]
@@ -334,7 +349,8 @@ class EngineD:
             if len(obj["subs"]) == 0:
                 return ttb.sptensor(shape=shape), {"kind": k, "shape": shape, "subs": np.zeros((0, len(shape)), dtype=int), "vals": np.zeros((0, 1))}
             subs = np.array(obj["subs"], dtype=np.int64).reshape(len(obj["subs"]), len(shape))
-            vals = np.where(vals == 0, 1.5, vals)
+            if not obj.get("stored_zeros"):
+                vals = np.where(vals == 0, 1.5, vals)
             return ttb.sptensor(subs.copy(), vals.copy(), shape), {"kind": k, "shape": shape, "subs": subs, "vals": vals}
         if k == "ktensor":
             w = np.asarray(dec(obj["weights"]), dtype=float)
